@@ -764,9 +764,14 @@ class H2Connection:
                 )
 
         self.state_machine.process_input(ConnectionInputs.SEND_HEADERS)
-        stream = self._get_or_create_stream(
-            stream_id, AllowedStreamIDs(self.config.client_side)
-        )
+        if self.config.client_side:
+            stream = self._get_or_create_stream(
+                stream_id, AllowedStreamIDs.ODD
+            )
+        else:
+            # Servers never open streams by sending HEADERS: the stream must
+            # already exist (opened by the client, or promised by us).
+            stream = self._get_stream_by_id(stream_id)
         frames = stream.send_headers(
             headers, self.encoder, end_stream
         )
